@@ -1,5 +1,5 @@
 import PytaskProofs.Lemmas.HashValue
-import PytaskModel.PathNorm
+import PytaskProofs.Lemmas.PathNorm
 /-!
 # C12 — change detection sees content and identity only and separates different content
 
@@ -76,6 +76,22 @@ theorem C12_hash_inj_scalar (hlen : ∀ b, (sha b).length = 64) (S : Bytes → P
     (h : hashValue sha a = hashValue sha b) : PyEqH a b := by
   refine hashValue_inj_aux sha hlen S hS a b hs ?_ ca cb h
   cases a <;> simp_all [PyVal.kind, WidthOK]
+
+/-- non-vacuity of `C12_hash_inj_partial` / `C12_hash_resp`: `(True, "a")` and `(1, "a")` — same shape,
+fixed width, covered by a 2-element collision-free set, equal fingerprints. -/
+example :
+    let a : PyVal := .tuple [.bool true, .str ['a']]
+    let b : PyVal := .tuple [.int 1, .str ['a']]
+    let l : List Bytes := [[97], utf8 ('1' :: padSha [97])]
+    (∀ x, (padSha x).length = 64) ∧ InjOn padSha (· ∈ l) ∧ SameShape a b ∧ WidthOK a b ∧
+      Covers padSha (· ∈ l) a ∧ Covers padSha (· ∈ l) b ∧ hashValue padSha a = hashValue padSha b ∧ PyEqH a b := by
+  refine ⟨padSha_len, injOn_of_list _ _ (by decide), ?_, ?_, ?_, ?_, ?_, ?_⟩
+  · simp [SameShape, SameShapeL, PyVal.kind]
+  · simp only [WidthOK, WidthOKL, PyVal.kind, PyVal.numHash]; decide
+  · simp only [Covers, CoversL]; decide
+  · simp only [Covers, CoversL]; decide
+  · simp only [hashValue, hashRenders]; decide
+  · simp only [PyEqH, PyEqHL, PyVal.kind, PyVal.numHash]; decide
 
 /-- **state_sep for hashed values.** Different `str` contents get different `PythonNode` states. -/
 theorem C12_pystate_sep (S : Bytes → Prop) (hS : InjOn sha S) (s t : Str)
@@ -246,9 +262,6 @@ def C12_sig_pythonnode_full : Prop :=
         i₁.argName = i₂.argName ∧ PyEqHL i₁.treePath i₂.treePath ∧
         i₁.taskName = i₂.taskName ∧ i₁.taskPath = i₂.taskPath)
 
-/-- toy digest used only to refute: two values, told apart on the one byte string that matters. -/
-private def toySha (x : Bytes) : Str := if x = [49, 50, 51] then List.replicate 64 '0' else List.replicate 64 '1'
-
 theorem C12_sig_pythonnode_full_false : ¬ C12_sig_pythonnode_full := by
   intro hfull
   let i₁ : NodeInfo := ⟨"123".toList, [.int 1, .int 23], "123".toList, none⟩
@@ -281,6 +294,24 @@ theorem C12_sig_pythonnode_full_false : ¬ C12_sig_pythonnode_full := by
   have := key.2.1
   simp only [i₁, i₂, PyEqHL, PyEqH, PyVal.kind, PyVal.numHash, true_and, and_true] at this
   exact absurd this.1 (by decide)
+
+set_option maxRecDepth 4000 in
+/-- non-vacuity of `C12_sig_iff_task`: two tasks `task_a` / `task_b` of one module `/r/m.py` -/
+example :
+    let l : List Bytes := [utf8 "task_a".toList, utf8 "task_b".toList, utf8 "/r/m.py".toList,
+      utf8 (rawKey padSha Generated.sigTaskFields (envTask "task_a".toList "/r/m.py".toList)),
+      utf8 (rawKey padSha Generated.sigTaskFields (envTask "task_b".toList "/r/m.py".toList))]
+    InjOn padSha (· ∈ l) ∧
+    SigCovers padSha (· ∈ l) Generated.sigTaskFields (envTask "task_a".toList "/r/m.py".toList) ∧
+    SigCovers padSha (· ∈ l) Generated.sigTaskFields (envTask "task_b".toList "/r/m.py".toList) ∧
+    sigTask padSha "task_a".toList "/r/m.py".toList ≠ sigTask padSha "task_b".toList "/r/m.py".toList := by
+  refine ⟨injOn_of_list _ _ (by decide), ⟨?_, by simp⟩, ⟨?_, by simp⟩, by decide⟩
+  · intro f hf
+    simp only [Generated.sigTaskFields, List.mem_cons, List.not_mem_nil, or_false] at hf
+    rcases hf with rfl | rfl <;> simp [envTask, Covers]
+  · intro f hf
+    simp only [Generated.sigTaskFields, List.mem_cons, List.not_mem_nil, or_false] at hf
+    rcases hf with rfl | rfl <;> simp [envTask, Covers]
 
 /-! ## `state()` of files and the `hash_path` memo -/
 
@@ -404,6 +435,46 @@ theorem C12_state_content_history (hlen : ∀ b, (sha b).length = 64) (S S₂ : 
       refine ⟨fun mh c hp => C12_state_content_partial sha md5 memo W hc p mh c hp, ?_⟩
       exact ih _ W (C12_memo_preserved_state sha md5 hlen S S₂ hS hS₂ memo W (covHist_head sha S S₂ W es hcov) hc p) hcov hh
 
+set_option maxRecDepth 4000 in
+/-- non-vacuity of `C12_memo_preserved_state` / `C12_state_content_partial` / `C12_state_content_history`:
+a world with one file `/a`, a non-empty coherent memo (after one `state()`), then an honest edit
+(new bytes under a new mtime) and another `state()`. -/
+example :
+    let W : World := fun p => if p = "/a".toList then some (5, [1, 2]) else none
+    let W' : World := fun p => if p = "/a".toList then some (6, [3]) else none
+    let S : Bytes → Prop := (· ∈ [utf8 "/a".toList])
+    let S₂ : Bytes → Prop := (· ∈ [utf8 (rawKey padSha Generated.memoKeyFields (envMemo "/a".toList 5)),
+                                    utf8 (rawKey padSha Generated.memoKeyFields (envMemo "/a".toList 6))])
+    let m := (stateOfFile padSha padSha {} "/a".toList (W "/a".toList)).1
+    let events : List Event := [.state "/a".toList, .edit W', .state "/a".toList]
+    InjOn padSha S ∧ InjOn padSha S₂ ∧ CovHist padSha S S₂ W events ∧ m.entries ≠ [] ∧
+      MemoCoherent padSha padSha m W ∧ Honest padSha padSha {} W events := by
+  intro W W' S S₂ m events
+  have hS : InjOn padSha S := injOn_of_list _ _ (by decide)
+  have hS₂ : InjOn padSha S₂ := injOn_of_list _ _ (by decide)
+  have hcW : Cov padSha S S₂ W := by
+    intro q mh c hq
+    simp only [W] at hq
+    split at hq
+    · next h => simp only [Option.some.injEq, Prod.mk.injEq] at hq; obtain ⟨rfl, rfl⟩ := hq; subst h; simp [S, S₂]
+    · simp at hq
+  have hcW' : Cov padSha S S₂ W' := by
+    intro q mh c hq
+    simp only [W'] at hq
+    split at hq
+    · next h => simp only [Option.some.injEq, Prod.mk.injEq] at hq; obtain ⟨rfl, rfl⟩ := hq; subst h; simp [S, S₂]
+    · simp at hq
+  refine ⟨hS, hS₂, ⟨hcW, hcW'⟩, by decide, ?_, ?_⟩
+  · exact C12_memo_preserved_state padSha padSha padSha_len S S₂ hS hS₂ {} W hcW (C12_memo_coherent_nil _ _ W) _
+  · simp only [events, Honest, and_true]
+    intro p mh c hp
+    simp only [W'] at hp
+    split at hp
+    · next h =>
+      simp only [Option.some.injEq, Prod.mk.injEq] at hp; obtain ⟨rfl, rfl⟩ := hp; subst h
+      right; decide
+    · simp at hp
+
 /-! ## CPython's `hash(int)` -/
 
 /-- **pyHashInt_range.** `hash(i)` lies strictly between ∓(2^61 - 1) and is never -1. -/
@@ -422,4 +493,101 @@ theorem C12_pyHashInt_periodic (i : Int) (h : 0 ≤ i) : pyHashInt (i + pyHashMo
   pyHashInt_periodic i h
 
 end Hash
+
+namespace PathNorm
+open Pytask.Hash (Str)
+
+/-! ## lexical normalisation of paths (`os.path.normpath`, `collect.py:388-477`) -/
+
+/-- **normpath_idem.** Normalising twice is normalising once: a collected path is in normal form. -/
+theorem C12_normpath_idem (p : Str) : normpath (normpath p) = normpath p := normpath_idem p
+
+/-- **normpath_spellings (`/./`).** `p/./q` and `p/q` normalise alike (`p` not made of slashes only). -/
+theorem C12_normpath_dot (p q : Str) (hp : HasNonSlash p) :
+    normpath (p ++ '/' :: '.' :: '/' :: q) = normpath (p ++ '/' :: q) := by
+  apply normpath_congr (by simp) (by simp)
+  · rw [initialSlashes_append p _ hp, initialSlashes_append p _ hp]
+  · have e : ('.' :: '/' :: q) = dot ++ '/' :: q := rfl
+    rw [splitSlash_append, e, splitSlash_append, splitSlash_append,
+      splitSlash_noslash dot (by decide)]
+    simp [List.foldl_append, step_dot]
+
+/-- **normpath_spellings (`//`).** `p//q` and `p/q` normalise alike. -/
+theorem C12_normpath_dslash (p q : Str) (hp : HasNonSlash p) :
+    normpath (p ++ '/' :: '/' :: q) = normpath (p ++ '/' :: q) := by
+  apply normpath_congr (by simp) (by simp)
+  · rw [initialSlashes_append p _ hp, initialSlashes_append p _ hp]
+  · rw [splitSlash_append, splitSlash_append]
+    simp [List.foldl_append, splitSlash, step_empty]
+
+/-- **normpath_spellings (trailing `/`).** `p/` and `p` normalise alike. -/
+theorem C12_normpath_trailing (p : Str) (hp : HasNonSlash p) :
+    normpath (p ++ ['/']) = normpath p := by
+  apply normpath_congr (by simp) (ne_nil_of_hasNonSlash hp)
+  · rw [initialSlashes_append p _ hp]
+  · rw [splitSlash_append]
+    simp [List.foldl_append, splitSlash, step_empty]
+
+/-- **normpath_spellings (`x/..`).** `p/x/../q` and `p/q` normalise alike for every ordinary component `x`. -/
+theorem C12_normpath_dotdot (p x q : Str) (hp : HasNonSlash p) (hx : Normal x) :
+    normpath (p ++ '/' :: (x ++ '/' :: '.' :: '.' :: '/' :: q)) = normpath (p ++ '/' :: q) := by
+  apply normpath_congr (by simp) (by simp)
+  · rw [initialSlashes_append p _ hp, initialSlashes_append p _ hp]
+  · have e : ('.' :: '.' :: '/' :: q) = dotdot ++ '/' :: q := rfl
+    rw [splitSlash_append, splitSlash_append, e, splitSlash_append, splitSlash_append,
+      splitSlash_noslash dotdot (by decide), splitSlash_noslash x hx.2.1]
+    simp [List.foldl_append, step_push_pop _ _ hx]
+
+
+/-- **collect (plain `Path`).** What collection stores for a `Path` dependency/product is in normal form. -/
+theorem C12_collect_plain_normal (base p : Str) :
+    normpath (collectPath true base p) = collectPath true base p := by
+  simp only [collectPath, if_true]; exact normpath_idem _
+
+/-- **collect (plain `Path`), spellings.** Relative spellings `p/./q`, `p//q`, `p/x/../q` of `p/q`
+(relative to the task's directory `base`) are collected as the same path. -/
+theorem C12_collect_plain_spellings (base p q x : Str) (hb : base.getLast? ≠ some '/')
+    (hp : HasNonSlash p) (hrel : isAbs p = false) (hx : Normal x) :
+    collectPath true base (p ++ '/' :: '.' :: '/' :: q) = collectPath true base (p ++ '/' :: q) ∧
+    collectPath true base (p ++ '/' :: '/' :: q) = collectPath true base (p ++ '/' :: q) ∧
+    collectPath true base (p ++ '/' :: (x ++ '/' :: '.' :: '.' :: '/' :: q)) = collectPath true base (p ++ '/' :: q) := by
+  have hrel' : ∀ r, isAbs (p ++ r) = false := by
+    intro r
+    cases p with
+    | nil => exact absurd rfl (ne_nil_of_hasNonSlash hp)
+    | cons a t => simpa [isAbs] using hrel
+  have hbp : HasNonSlash (base ++ '/' :: p) := by
+    obtain ⟨c, hc, hne⟩ := hp
+    exact ⟨c, by simp [hc], hne⟩
+  simp only [collectPath, if_true, hrel', joinPath, if_neg hb, Bool.false_eq_true, if_false]
+  have e : ∀ r, base ++ '/' :: (p ++ r) = (base ++ '/' :: p) ++ r := by intro r; simp
+  refine ⟨?_, ?_, ?_⟩
+  · rw [e, e]; exact C12_normpath_dot _ q hbp
+  · rw [e, e]; exact C12_normpath_dslash _ q hbp
+  · rw [e, e]; exact C12_normpath_dotdot _ x q hbp hx
+
+/-- **collect (node instances), full** — node instances (`PathNode`, `PickleNode`, `DirectoryNode.root_dir`)
+are normalised like plain paths.  FALSE of the current code (F17). -/
+def C12_collect_node_full : Prop := ∀ base p : Str, collectPath false base p = collectPath true base p
+
+/-- **F17.** An absolute, dotted path of a node instance is kept as spelled. -/
+theorem C12_collect_node_full_false : ¬ C12_collect_node_full := by
+  intro h
+  exact absurd (h "/b".toList "/a/./c".toList) (by decide)
+
+/-- **collect (node instances), partial.** Relative paths of node instances are normalised exactly
+like plain paths. -/
+theorem C12_collect_node_rel (base p : Str) (hrel : isAbs p = false) :
+    collectPath false base p = collectPath true base p := by
+  simp [collectPath, hrel]
+
+/-- non-vacuity of the spelling theorems: `/r/a` has a non-slash character, `x` is an ordinary component,
+and the four spellings of `/r/a/b` normalise to it. -/
+example : HasNonSlash "/r/a".toList ∧ Normal "x".toList ∧
+    normpath "/r/a/./b".toList = "/r/a/b".toList ∧ normpath "/r/a//b".toList = "/r/a/b".toList ∧
+    normpath "/r/a/x/../b".toList = "/r/a/b".toList ∧ normpath "/r/a/b/".toList = "/r/a/b".toList ∧
+    normpath "//r/../../a".toList = "//a".toList ∧ normpath "../a/../../b".toList = "../../b".toList := by
+  refine ⟨⟨'r', by decide, by decide⟩, by simp only [Normal]; decide, ?_⟩
+  decide
+end PathNorm
 end Pytask
